@@ -138,9 +138,10 @@ CLAIMS = {
 
 SHARED = {
     "C02": " Also evaluates the necessary conditions this property rests on from other rule sets: the wake/poll handshake (C01 R1.1-R1.8), Occupied-only polling (C05 R5.1), ordered index discipline and in-turn yield (C04 R4.1/R4.2), side-effect-free refusal (C15 R15.2), free-list initialisation (R2.7).",
-    "C03": " Added: lock discipline of the per-slot flag (R3.9), slot-map/waker-list capacity agreement and MARK index provenance (R3.8), compile_fail witnesses (E3) in the quick tier.",
+    "C03": " Added: lock discipline of the per-slot flag (R3.9), slot-map/waker-list capacity agreement and MARK index provenance (R3.8), plain (non-atomic) writes / &mut borrows / ptr::replace-style primitives on the shared block only in the constructor and the freeing function (R3.10), compile_fail witnesses (E3) in the quick tier.",
+    "C05": " The slot-map semantics that make 'vacated' mean 'dropped in place and invisible to the accessor' (C02 R2.3) are evaluated in this check.",
     "C04": " Added: completeness of the live-task enumeration used by the re-base (R4.3b).",
-    "C06": " Added: exhaustive, vacancy-guarded release loops (R6.6); shared: vacate<=>Ready (C02 R2.1/R2.3), waker allocation freed exactly once (C03 R3.1/R3.4).",
+    "C06": " Added: exhaustive, vacancy-guarded release loops (R6.6), no path of a buffer struct's Drop impl avoids the release loop except on buffer emptiness or needs_drop::<element type>() == false (R6.7); shared: vacate<=>Ready (C02 R2.1/R2.3), waker allocation freed exactly once (C03 R3.1/R3.4).",
     "C07": " Added: who-may-vacate (C02 R2.2) so that unwind guards or other code cannot vacate a slot without an output; direct-drain forms of poll are handled.",
     "C09": " Guard semantics are decided by a finite-grid entailment on the closed form of the fill guard (pull ==> running < capacity; no pull ==> running(+parked) >= capacity), with the exact-shape rule as fallback; the assume-guarantee links (C02 R2.1/R2.4, C15 R15.3/R15.4) are evaluated in this check.",
     "C10": " The assume-guarantee links (C02 R2.1/R2.4, C15 R15.3/R15.4) are evaluated in this check.",
